@@ -3,7 +3,7 @@ NEXT RNext
 CONSTANTS
   Alphabet = {0, 1, 2, 3, 8, 11, 12, 13, 15, 127, 128, 255}
   MaxLen = 3
-  MutAlphabet = {0, 1, 11, 12, 15, 128, 255}
+  MutAlphabet = {0, 1, 11, 12, 15, 127, 128, 255}
   Types = {2, 3, 4, 6, 8, 10, 11, 12, 13, 14, 15, 1, 16}
   AllocThreshold = 2
   MutantsOn = TRUE
